@@ -5,3 +5,5 @@ open WebPkg.C19
 #print axioms count_le
 #print axioms chunking_irrelevant
 #print axioms unchecked_write_breaks_it
+#print axioms countingWriter_written_eq_received
+#print axioms countingWriter_readFrom_complete
